@@ -22,6 +22,7 @@ type Violation struct {
 	Signature string      `json:"signature"`
 	Detail    string      `json:"detail"`
 	Replay    interface{} `json:"replay"`
+	Cost      int         `json:"cost"` // deviations / history length: the driver keeps the cheapest per signature
 }
 
 // Result is what one worker reports.
@@ -128,6 +129,27 @@ func (r *Result) Violate(property, signature, detail string, replay interface{})
 		detail = detail[:4000] + "..."
 	}
 	r.Violations = append(r.Violations, Violation{Property: property, Signature: signature, Detail: detail, Replay: replay})
+}
+
+// ViolateC is Violate with a cost; a cheaper counterexample replaces a stored one.
+func (r *Result) ViolateC(property, signature, detail string, replay interface{}, cost int) {
+	r.mu.Lock()
+	for i := range r.Violations {
+		if r.Violations[i].Signature == signature {
+			if cost < r.Violations[i].Cost {
+				r.Violations[i].Detail, r.Violations[i].Replay, r.Violations[i].Cost = detail, replay, cost
+			}
+			r.Counters["violations_total"]++
+			r.violSeen[signature]++
+			r.mu.Unlock()
+			return
+		}
+	}
+	r.mu.Unlock()
+	r.Violate(property, signature, detail, replay)
+	r.mu.Lock()
+	r.Violations[len(r.Violations)-1].Cost = cost
+	r.mu.Unlock()
 }
 
 // NViolations is the number of distinct violation signatures so far.
